@@ -1269,6 +1269,19 @@ _ure_make_expr(ucs2_t type, ucs2_t lhs, ucs2_t rhs, _ure_buffer_t *b)
     return _URE_NOOP;
 
   /*
+   * An operator without operand in the regular expression ("|a", "(*a)",
+   * "(+)"): the missing operand must not get into the expression list,
+   * _ure_reduce() would use it as an index.
+   */
+  if (b->reducing == 0 &&
+      (((type == _URE_STAR || type == _URE_PLUS || type == _URE_QUEST ||
+	 type == _URE_AND || type == _URE_OR) && lhs == _URE_NOOP) ||
+       ((type == _URE_AND || type == _URE_OR) && rhs == _URE_NOOP))) {
+    b->error = _URE_UNEXPECTED_EOS;
+    return _URE_NOOP;
+  }
+
+  /*
    * Determine if the expression already exists or not.
    */
   for (i = 0; i < b->expr_used; i++) {
